@@ -41,12 +41,25 @@ func Names() []string {
 	return names
 }
 
+// Synthetic names the zone built by JumpsToday (a missing and a repeated hour on every day of the current week).
+const Synthetic = "Synthetic/JumpsToday"
+
+var synthOnce sync.Once
+var synth *time.Location
+
 func Loc(name string) *time.Location {
 	once.Do(load)
 	if l, ok := locs[name]; ok {
 		return l
 	}
 	if name == "UTC" || name == "" {
+		return time.UTC
+	}
+	if name == Synthetic {
+		synthOnce.Do(func() { synth = JumpsToday() })
+		if synth != nil {
+			return synth
+		}
 		return time.UTC
 	}
 	l, err := time.LoadLocation(name)
